@@ -44,7 +44,13 @@ type DaemonCfg struct {
 	// (relative: "storage"), and every incarnation is started from a working directory of its own - a daemon started by
 	// hand from a shell after the service manager had started it from somewhere else.
 	HomeConfig bool
-	Pop        *fsPopulation
+	// RelativeStorage: the storage path is left at its default ("storage") or given as a relative path, to be
+	// resolved by the binary against its base directory (or the home directory).
+	RelativeStorage bool
+	// GenerationTimeout, if set, is written as process.generation-timeout; ExtraPeers are further entries of the peer table.
+	GenerationTimeout string
+	ExtraPeers        map[string]string
+	Pop             *fsPopulation
 }
 
 // fsPopulation is a population whose wallets live in a filesystem store (a template directory copied per daemon).
@@ -146,6 +152,18 @@ func (d *Daemon) writeConfig() {
 `, base)
 	if d.cfg.HomeConfig {
 		storage = ""
+	} else if d.cfg.RelativeStorage {
+		storage = ` "storage-path": "protection/db",
+`
+		_ = os.MkdirAll(filepath.Join(base, "protection"), 0o700)
+	}
+	peers := ""
+	for _, id := range sortedKeys(d.cfg.ExtraPeers) {
+		peers += fmt.Sprintf(`, %q: %q`, id, d.cfg.ExtraPeers[id])
+	}
+	gt := ""
+	if d.cfg.GenerationTimeout != "" {
+		gt = fmt.Sprintf(`, "generation-timeout": %q`, d.cfg.GenerationTimeout)
 	}
 	text := fmt.Sprintf(`{
  "log-level": "info",
@@ -153,12 +171,12 @@ func (d *Daemon) writeConfig() {
  "server": {"id": 1, "name": "signer-test01", "listen-address": "%[2]s", "rules": {"admin-ips": %[3]s, "periodic-pruning": %[4]v}},
  "certificates": {"server-cert": "file://%[1]s/certs/server.crt", "server-key": "file://%[1]s/certs/server.key"%[5]s},
 %[8]s "stores": [{"name": "Local", "type": "filesystem", "location": "%[1]s/wallets"}],
- "peers": {"1": "signer-test01:%[6]d"},
+ "peers": {"1": "signer-test01:%[6]d"%[9]s},
  "unlocker": {"wallet-passphrases": ["pass"], "account-passphrases": ["pass"]},
- "process": {"generation-passphrase": "pass"},
+ "process": {"generation-passphrase": "pass"%[10]s},
  "permissions": %[7]s
 }
-`, base, d.Addr, admin, d.cfg.Pruning, ca, d.port, perms, storage)
+`, base, d.Addr, admin, d.cfg.Pruning, ca, d.port, perms, storage, peers, gt)
 	name := "dirk.json"
 	if d.cfg.HomeConfig {
 		name = ".dirk.json"
@@ -313,6 +331,7 @@ var daemonCreds = map[string][2][]byte{
 	"client-test01": {resources.ClientTest01Crt, resources.ClientTest01Key},
 	"client-test02": {resources.ClientTest02Crt, resources.ClientTest02Key},
 	"client-test03": {resources.ClientTest03Crt, resources.ClientTest03Key},
+	"signer-test02": {resources.SignerTest02Crt, resources.SignerTest02Key},
 }
 
 // Dial opens a client connection with the given client's genuine certificate, optionally from a given local address.
